@@ -248,6 +248,19 @@ def judge(case):
         if not reg.fundamental or reg.name != regname or idx != k:
             fails.append(("resolve_qubit-wrong", {"expected": (regname, k), "got": (reg.name, idx)}))
             break
+    # (1b) the other order: macros expanded while lets are symbolic, then lets (and overrides) filled in
+    o = lib.outcome(lambda: lib.fill_in_let(lib.expand_macros(c), ov or None))
+    if o[0] != "ok":
+        fails.append(("rejected-valid-program:macros-then-lets:" + o[1], {"error": o[2], "ov": ov}))
+    else:
+        xs2 = x_statements(o[1])
+        if len(xs2) == len(ks):
+            for st, k in zip(xs2, ks):
+                o2 = lib.outcome(list(st.parameters.values())[0].resolve_qubit)
+                if o2[0] != "ok" or not o2[1][0].fundamental or o2[1][1] != k:
+                    fails.append(("resolve_qubit-wrong:macros-expanded-before-lets", {"expected": k, "got": str(o2[1:3])[:100], "ov": ov}))
+                    break
+            info["ml"] = len(ks)
     # also on the unexpanded circuit with lets unresolved (resolve_qubit evaluates constants itself)
     # (3) used qubits per statement
     for st, k in zip(xs, ks):
@@ -350,6 +363,19 @@ def judge(case):
                 fails.append(("context-resolution-wrong:resolve_qubit", {"expected": k, "got": (o[1][0].name, o[1][1]), "parameter": pname,
                                                                           "parameter-named-like-a-let": pname in lets_now}))
                 break
+            # the same statement in the scope of another call site: element v2 of the final alias is section v2's qubit
+            v2 = (v + 1) % len(ks)
+            if v2 != v:
+                o = lib.outcome(arg.resolve_qubit, {pname: v2})
+                if o[0] == "ok" and (not o[1][0].fundamental or o[1][1] != ks[v2]):
+                    fails.append(("context-resolution-wrong:second-scope", {"expected": ks[v2], "got": (o[1][0].name, o[1][1]),
+                                                                             "first_scope_value": v, "second_scope_value": v2}))
+                    break
+                o = lib.outcome(lib.used_qubits, stm, {pname: v2})
+                if o[0] == "ok" and {a: set(b) for a, b in dict(o[1]).items() if b} != {regname: {ks[v2]}}:
+                    fails.append(("context-resolution-wrong:second-scope:used_qubits", {"expected": ks[v2], "first_scope_value": v,
+                                                                                        "second_scope_value": v2}))
+                    break
             o = lib.outcome(lib.used_qubits, stm, {pname: v})
             if o[0] != "ok":
                 fails.append(("context-resolution-raised:" + o[1], {"error": o[2], "parameter": pname, "value": v}))
@@ -489,6 +515,7 @@ def process(ctx, case, feats):
     rec.count("consumer:emulator", info["emu"])
     rec.count("consumer:pygsti", info["gsti"])
     rec.count("consumer:resolution-in-context", info.get("ctx", 0))
+    rec.count("consumer:resolve_qubit:macros-expanded-before-lets", info.get("ml", 0))
     if "gsti_unavailable" in info:
         rec.note("pygsti_unavailable", info["gsti_unavailable"])
     rec.count("style:" + case["style"])
